@@ -15,6 +15,8 @@ mod c10;
 mod c03;
 mod c11;
 mod c08;
+mod c13;
+mod c12;
 
 use engine::{Env, Tier};
 use std::path::PathBuf;
@@ -96,6 +98,7 @@ fn main() {
     let code = match prop.as_str() {
         "dev-gen" => dev::gen_stats(&env, &rest),
         "dev-show" => dev::show(&env, &rest),
+        "dev-run" => dev::run_file(&env, &rest),
         "C04" => c04::run(&env),
         "C02" => c02::run(&env),
         "C17" => c17::run(&env),
@@ -105,6 +108,8 @@ fn main() {
         "C03" => c03::run(&env, &rest),
         "C11" => c11::run(&env),
         "C08" => c08::run(&env),
+        "C13" => c13::run(&env),
+        "C12" => c12::run(&env),
         _ => usage(),
     };
     std::process::exit(code);
